@@ -253,9 +253,88 @@ def h_gmt_sign(zone, sign, minutes=False):
     return fn, types, st
 
 
+# ------------------------------------------------------------------ (2b) text level: abbreviations of every admissible length
+ABBRS = ["ET", "EST", "BRST", "AEDST", "ChST", "Est", "ABCDEF", "E5T", "UTC", "GMT"]
+TEXTS = ["2003-09-25 10:49:41 %s", "Thu Sep 25 10:49:41 %s 2003", "10:49:41 %s 25 Sep 2003", "2003-09-25T10:49:41 -0300 (%s)"]
+
+
+def h_tzname_text(form):
+    """parse() of a full text carrying an abbreviation: upper-case ASCII names of up to five letters are zone names and are
+    resolved through tzinfos (mapping to tzinfo / int / TZ string, or callable); with none given the result is naive with a
+    warning; ignoretz gives the wall time; fuzzy gives the same result.  Everything is pinned per path; the check runs natively."""
+    import dateutil.parser as DP
+    from dateutil import tz
+    types = dict(a=int, t=int, fuzzy=bool)
+    wall = datetime.datetime(2003, 9, 25, 10, 49, 41)
+
+    def fn(ctx, a, t, fuzzy):
+        ctx.assume(S.within(a, 0, len(ABBRS) - 1))
+        ctx.assume(S.within(t, 0, len(TEXTS) - 1))
+        a, t, fuzzy = ctx.concrete(a), ctx.concrete(t), ctx.concrete(fuzzy)
+        if ctx.symbolic:
+            return None
+        name = ABBRS[a]
+        text = TEXTS[t] % name
+        paren = "(%s)" in TEXTS[t]
+        is_name = name.isalpha() and name.isupper() and len(name) <= 5 and all(ord(ch) < 128 for ch in name)
+        utc = name in ("UTC", "GMT")
+        if paren and (utc or not (3 <= len(name) <= 5)):
+            ctx.assume(False)        # '(XXX)' after a numeric offset is documented for 3..5 letter names; UTC aliases there are outside
+        secs = 3600 * (len(name) + 1)
+        zone = tz.tzoffset(name, secs)
+        if form == "none":
+            tzinfos = None
+        elif form == "tzinfo":
+            tzinfos = {name: zone}
+        elif form == "int":
+            tzinfos = {name: secs}
+        elif form == "str":
+            tzinfos = {name: "%s-%d" % ("XXX", len(name) + 1)}       # POSIX: XXX-4 is four hours east
+        elif form == "callable":
+            tzinfos = lambda nm, off: zone if nm == name else None
+        else:
+            tzinfos = {name: zone}
+        key = "tzname-text:%s:%s:%d%s" % (form, name, t, ":fuzzy" if fuzzy else "")
+        with ctx.untraced(), K.native_env(), warnings.catch_warnings(record=True) as wlist:
+            warnings.simplefilter("always")
+            try:
+                got = DP.parse(text, tzinfos=tzinfos, ignoretz=(form == "ignoretz"), fuzzy=fuzzy)
+            except DP.ParserError:
+                got = None
+            except Exception as e:
+                ctx.fail("parse(%r) raised %s" % (text, type(e).__name__), key=key + ":exc")
+            if not is_name:
+                # not a zone name: the text is rejected (or, fuzzy, the token is skipped); never resolved through tzinfos
+                if got is not None and not paren:
+                    ctx.check(got.tzinfo is None or got.utcoffset() != datetime.timedelta(seconds=secs) or name == "E5T",
+                              "parse(%r): %r is not an admissible zone abbreviation but was resolved through tzinfos" % (text, name), key=key + ":notname")
+                return None
+            if got is None:
+                ctx.fail("parse(%r) rejected although %r is an admissible zone abbreviation" % (text, name), key=key + ":rejected")
+            ctx.check(got.replace(tzinfo=None) == wall, "parse(%r): wall time %r" % (text, got), key=key + ":wall")
+            if form == "ignoretz":
+                ctx.check(got.tzinfo is None, "ignoretz returned an aware datetime for %r" % (text,), key=key)
+            elif form == "none" and not utc and not paren:
+                ctx.check(got.tzinfo is None and any(issubclass(w.category, DP.UnknownTimezoneWarning) for w in wlist),
+                          "parse(%r): unknown abbreviation must give a naive result with a warning, got %r" % (text, got), key=key)
+            elif form == "none" and utc and not paren:
+                ctx.check(got.tzinfo is tz.UTC, "parse(%r): UTC designator not resolved to tz.UTC" % (text,), key=key)
+            elif form == "none" and paren:
+                ctx.check(got.utcoffset() == datetime.timedelta(hours=-3), "parse(%r): numeric offset not used" % (text,), key=key)
+            else:
+                ctx.check(got.tzinfo is not None and got.utcoffset() == datetime.timedelta(seconds=secs),
+                          "parse(%r, tzinfos=%s): expected offset %ds, got %r" % (text, form, secs, got.utcoffset() if got.tzinfo else None), key=key)
+                if form in ("tzinfo", "callable"):
+                    ctx.check(got.tzinfo is zone, "the tzinfo object supplied through tzinfos is not the one attached", key=key + ":identity")
+        return None
+    return fn, types
+
+
 def cells(tier):
     q = tier == "quick"
     cs = []
+    for form in ("none", "tzinfo", "int", "str", "callable", "ignoretz"):
+        cs.append(Cell(M, "h_tzname_text", dict(form=form), budget_s=120))
     pres = [(), ("month",), ("day",), ("month", "day"), ("year",), ("year", "month"), ("hour", "minute"), ("year", "month", "day", "hour", "minute", "second", "microsecond")]
     for dy in ((2024,) if q else (2024, 2023, 1900, 2000)):
         for pr in (pres if not q else pres[:5] + pres[6:]):
@@ -283,6 +362,7 @@ def cells(tier):
 ASSUMPTIONS = c02.ASSUMPTIONS[:3] + [
     "_build_naive / _build_tzaware are driven on directly constructed parser results (the record the scanner fills): which fields are present is a cell parameter, their values and the default's month/day/time are solver variables; the default's year is a cell parameter",
     "zone cascade: the abbreviation comes from a vocabulary (pinned per path): None, UTC aliases, the local names ('LCL','LCD' via the time shim), a tzinfos key, an unknown name; the numeric offset is a solver variable or absent; tzinfos as mapping to tzinfo / int / TZ string, or callable",
+    "abbreviation-text cells: four fixed texts x a vocabulary of names of length 1..6 (upper-case, mixed-case, with a digit, UTC aliases) x tzinfos form x fuzzy, pinned per path and run natively through parse()",
     "fuzzy cells: C02 templates embedded in fixed filler sentences; digits symbolic",
 ]
 OUTSIDE = ["arbitrary filler text", "parserinfo subclasses", "tzlocal behaviour itself (C08)"]
